@@ -1,0 +1,11 @@
+// SPDX-License-Identifier: MPL-2.0
+
+//! Verification hooks (feature `verif-hooks` only). Public access to crate-private code so that
+//! an external checker can compare it with reference models. Nothing here is used by the library.
+
+/// Raw field arithmetic: scaled-down instantiations of the generic code and the deployed fields.
+pub mod fp {
+    pub use crate::fp::verif_small::{
+        fp128, fp32, fp64, small_fields_u16, small_fields_u8, RawField,
+    };
+}
